@@ -126,6 +126,26 @@ impl Property for C07 {
                 }
             })
             .exhaustive(),
+            // a file that is included in vain comes into being on disk (written by a generator, a checkout) between
+            // two analyses of the document that includes it, and goes away again: nobody tells the server
+            Family::new("late-files", 3, |ws, _r, emit| {
+                for f in 0..NFILES {
+                    // (the variants that end with `include "nowhere.td"`: v % 7 == 6)
+                    for v in [6usize, 13, 20] {
+                        let w = (v + 7) % (2 * NVARIANTS);
+                        for ops in [
+                            json!([[0, f, v], [4, 0, 0], [0, f, v]]),
+                            json!([[0, f, v], [4, 0, 0], [0, f, w], [4, 0, 0], [0, f, v]]),
+                            json!([[0, f, v], [0, (f + 1) % NFILES, 1], [4, 0, 0], [0, f, v], [0, f, w]]),
+                        ] {
+                            if !emit(json!({"kind": "server-hist", "ops": ops, "ws": ws})) {
+                                return;
+                            }
+                        }
+                    }
+                }
+            })
+            .exhaustive(),
             // a document is edited several times (its version number grows), closed, opened again (an editor starts
             // counting at 1 again) and edited: what was known of the earlier editing session must not matter
             Family::new("reopened-documents", 3, |ws, _r, emit| {
